@@ -185,6 +185,7 @@ def run_batch(modname, prop, tier, *, n_cases, budget_s, jobs, base_seed, chunk=
         "fired": {}, "probes": {}, "strategies": {}, "grans": {}, "max_steps_run": 0,
         "samples": [], "rechecked": 0, "sub": 0,
     }
+    digests = {}
     violations = []
     known_hits = {}
     harness_errors = []
@@ -213,6 +214,7 @@ def run_batch(modname, prop, tier, *, n_cases, budget_s, jobs, base_seed, chunk=
                     continue
                 for res in results:
                     _aggregate(agg, res)
+                    digests[str(res["idx"])] = res.get("digest")
                     if res.get("harness_error"):
                         harness_errors.append(f"case idx={res['idx']} seed={res['seed']}: {res['harness_error']}")
                     if res.get("nondeterministic"):
@@ -232,7 +234,7 @@ def run_batch(modname, prop, tier, *, n_cases, budget_s, jobs, base_seed, chunk=
         pool.close()
     wall = time.time() - t_start
     return dict(agg=agg, violations=violations, known_hits=known_hits, harness_errors=harness_errors,
-                wall=wall, n_requested=n_cases)
+                wall=wall, n_requested=n_cases, digests=digests)
 
 
 def _aggregate(agg, res):
